@@ -375,6 +375,12 @@ def judge_spec(spec, impl):
         return impl.startswith(spec[7:])
     if spec.startswith("oneof "):
         return impl in spec[6:].split(" || ")
+    if spec.startswith("steps "):
+        want = spec[6:].split(";")
+        got = impl.split(";")
+        if len(want) != len(got):
+            return False
+        return all(w == "-" or w == g for w, g in zip(want, got))
     if spec.startswith("not "):
         return not judge_spec(spec[4:], impl)
     raise ValueError("unknown spec verdict: " + spec)
